@@ -47,9 +47,14 @@ def crop_bboxes(
     width = abs(bboxes[0, 1, 0] - bboxes[0, 0, 0])
     box_size = tuple(torch.round(torch.Tensor((height + 1, width + 1))).to(torch.int32))
 
-    # Crop.
+    # Crop. kornia casts the boxes (and solves the perspective transform) in the dtype of
+    # the images, so half-precision images are cropped in float32: float16 / bfloat16
+    # cannot represent box corners beyond 2048 / 256 px.
+    images_to_crop = images[sample_inds]  # (n_boxes, channels, height, width)
+    if images_to_crop.dtype in (torch.float16, torch.bfloat16):
+        images_to_crop = images_to_crop.to(torch.float32)
     crops = crop_and_resize(
-        images[sample_inds],  # (n_boxes, channels, height, width)
+        images_to_crop,
         boxes=bboxes,
         size=box_size,
     )
